@@ -17,16 +17,17 @@ Fixpoint sdel_key {A} (k : str) (d : list (str * A)) : list (str * A) :=
 
 (* ServersMixin._applyStsPolicy(server) at clock [now] *)
 Definition applyStsPolicy (now : Z) (n : netstore) (sv : server) : netstore * res server :=
-  match dict_get (sv_host sv) (policies n), dict_get (sv_host sv) (discs n) with
-  | Some pol, Some last =>
+  match dict_get (sv_host sv) (policies n) with
+  | Some pol =>
       match parseStsPolicy2 pol true with
       | None => (n, Raise TypeError)                       (* None['duration'] *)
       | Some (port, duration) =>
-          if Z.ltb (last + duration) now
+          (* no recorded disconnection: the policy did not start to expire *)
+          if match dict_get (sv_host sv) (discs n) with Some last => Z.ltb (last + duration) now | None => false end
           then (Net (sdel_key (sv_host sv) (policies n)) (discs n), Ok sv)      (* expired: removed *)
           else (n, Ok (Server (sv_host sv) port (sv_attempt sv) true))
       end
-  | _, _ => (n, Ok sv)
+  | None => (n, Ok sv)
   end.
 
 (* onDisconnect: network.addDisconnection(host) *)
